@@ -233,6 +233,11 @@ class SpanUpdater:
 
     def update(self, offset, bisect):
         """Shift an offset left or right."""
-        index = bisect(self.offsets, offset) - 1
+        if not self.offsets:
+            # text_before is empty: there is no range to look up
+            return offset
+        # an offset before the first range (bisect_left of 0) belongs to the
+        # first range, not to the last one as index -1 would select
+        index = max(bisect(self.offsets, offset) - 1, 0)
         updater = self.updaters[index]
         return updater(offset)
